@@ -179,7 +179,10 @@ def run_node(spec):
     cfg = {}
     for m in spec['mods']:
         c = {'cls': classes[m.get('cls', 'Base')], 'description': f'module {m["name"]}'}
-        if m.get('dep'):
+        if m.get('dep') and m.get('dep_by') == 'class' and m.get('cls', 'Base') not in ('Other', 'Pin'):
+            # the attachment is given by a subclass overriding the property with a bare value, not by the configuration
+            c['cls'] = type(c['cls'].__name__ + 'Fixed', (c['cls'],), {'dep': m['dep']})
+        elif m.get('dep'):
             c['dep'] = {'value': m['dep']}
         if m.get('opt'):
             c['opt'] = {'value': m['opt']}
@@ -473,6 +476,8 @@ def gen_spec(draw):
         m = {'name': name, 'cls': cls}
         if cls not in ('Other', 'Pin'):
             m['dep'] = draw(st.sampled_from([None, None] + names + ['nix']))
+            if m['dep'] and draw(st.integers(0, 3)) == 0:
+                m['dep_by'] = 'class'
             m['opt'] = draw(st.sampled_from([None, None, None] + names))
             m['touch'] = draw(st.sampled_from(['early', 'init', 'init', 'start', 'never']))
             m['write'] = draw(st.sampled_from([None, None, 5]))
